@@ -1,16 +1,250 @@
-"""Placeholder for nacl.bindings (absent from the sandbox): lets symbolchain.nem.KeyPair import; none of these is ever called by
-checks that do not sign on NEM.  To be replaced by a real implementation."""
+"""Pure-Python stand-in for the eight `nacl.bindings` functions symbolchain/nem/KeyPair.py calls (PyNaCl/libsodium is absent
+from the sandbox).  Big-int Ed25519 in extended coordinates following libsodium's documented semantics:
+
+* crypto_core_ed25519_is_valid_point(p): canonical encoding (y < 2^255-19), on the curve, not of small order, in the main subgroup
+* crypto_core_ed25519_scalar_reduce(s): 64 bytes little endian, reduced mod L, 32 bytes out
+* crypto_core_ed25519_scalar_add / _scalar_mul(x, y): 32-byte scalars, result mod L
+* crypto_core_ed25519_add / _sub(p, q): both operands must decode to points on the curve, else an error
+* crypto_scalarmult_ed25519_base(n): clamps n (n[0] &= 248, n[31] &= 127, n[31] |= 64), multiplies the base point
+* crypto_scalarmult_ed25519_base_noclamp(n): clears only bit 255 of n; error if the result is the neutral element
+* crypto_scalarmult_ed25519_noclamp(n, p): p must be canonical, not of small order, on the curve, in the main subgroup; clears only
+  bit 255 of n; error if the result is the neutral element
+
+Errors are raised the way PyNaCl raises them (`nacl.exceptions.RuntimeError` for a non-zero libsodium status,
+`nacl.exceptions.TypeError/ValueError` for wrong argument types/lengths).  Running this file self-tests the arithmetic against
+`cryptography`'s Ed25519 (RFC 8032 public keys and signatures through the same functions instantiated with SHA-512).
+Not constant time; test use only."""
+from . import exceptions as exc
+
+crypto_core_ed25519_BYTES = 32
+crypto_core_ed25519_SCALARBYTES = 32
+crypto_core_ed25519_NONREDUCEDSCALARBYTES = 64
+crypto_scalarmult_ed25519_BYTES = 32
+crypto_scalarmult_ed25519_SCALARBYTES = 32
+
+_P = 2 ** 255 - 19
+_L = 2 ** 252 + 27742317777372353535851937790883648493
+_D = -121665 * pow(121666, _P - 2, _P) % _P
+_I = pow(2, (_P - 1) // 4, _P)
+_IDENT = (0, 1, 1, 0)
 
 
-def _missing(name):
-	def function(*_args, **_kwargs):
-		raise NotImplementedError(f'nacl.bindings.{name} is not available in this sandbox')
-	function.__name__ = name
-	return function
+def _add(p, q):
+	x1, y1, z1, t1 = p
+	x2, y2, z2, t2 = q
+	a = (y1 - x1) * (y2 - x2) % _P
+	b = (y1 + x1) * (y2 + x2) % _P
+	c = t1 * 2 * _D * t2 % _P
+	d = z1 * 2 * z2 % _P
+	e, f, g, h = b - a, d - c, d + c, b + a
+	return (e * f % _P, g * h % _P, f * g % _P, e * h % _P)
 
 
-for _name in (
-	'crypto_core_ed25519_is_valid_point', 'crypto_core_ed25519_scalar_add', 'crypto_core_ed25519_scalar_mul',
-	'crypto_core_ed25519_scalar_reduce', 'crypto_core_ed25519_sub', 'crypto_scalarmult_ed25519_base',
-	'crypto_scalarmult_ed25519_base_noclamp', 'crypto_scalarmult_ed25519_noclamp'):
-	globals()[_name] = _missing(_name)
+def _double(p):
+	x1, y1, z1, _ = p
+	a = x1 * x1 % _P
+	b = y1 * y1 % _P
+	c = 2 * z1 * z1 % _P
+	e = ((x1 + y1) * (x1 + y1) - a - b) % _P
+	g = b - a
+	f = g - c
+	h = -a - b
+	return (e * f % _P, g * h % _P, f * g % _P, e * h % _P)
+
+
+def _neg(p):
+	x, y, z, t = p
+	return (-x % _P, y, z, -t % _P)
+
+
+def _mul(n, p):
+	result = _IDENT
+	for bit in bin(n)[2:] if n else '':
+		result = _double(result)
+		if bit == '1':
+			result = _add(result, p)
+	return result
+
+
+def _is_ident(p):
+	x, y, z, _ = p
+	return x % _P == 0 and (y - z) % _P == 0
+
+
+def _encode(p):
+	x, y, z, _ = p
+	zi = pow(z, _P - 2, _P)
+	x, y = x * zi % _P, y * zi % _P
+	return (y | ((x & 1) << 255)).to_bytes(32, 'little')
+
+
+def _decode(data):
+	"""Point on the curve for a 32-byte encoding (y is reduced mod p, as ge25519_frombytes does), or None."""
+	value = int.from_bytes(data, 'little')
+	sign = value >> 255
+	y = (value & ((1 << 255) - 1)) % _P
+	u = (y * y - 1) % _P
+	v = (_D * y * y + 1) % _P
+	xx = u * pow(v, _P - 2, _P) % _P
+	x = pow(xx, (_P + 3) // 8, _P)
+	if (x * x - xx) % _P != 0:
+		x = x * _I % _P
+	if (x * x - xx) % _P != 0:
+		return None
+	if (x & 1) != sign:
+		x = -x % _P
+	return (x, y, 1, x * y % _P)
+
+
+_BASE = _decode((4 * pow(5, _P - 2, _P) % _P).to_bytes(32, 'little'))
+
+
+def _check_bytes(value, size, name):
+	if not isinstance(value, bytes) or len(value) != size:
+		raise exc.TypeError(f'{name} must be a {size} bytes long bytes sequence')
+
+
+def _is_canonical(data):
+	return (int.from_bytes(data, 'little') & ((1 << 255) - 1)) < _P
+
+
+def _has_small_order(point):
+	return _is_ident(_mul(8, point))
+
+
+def crypto_core_ed25519_is_valid_point(p):
+	_check_bytes(p, 32, 'Point')
+	if not _is_canonical(p):
+		return False
+	point = _decode(p)
+	if point is None or _has_small_order(point):
+		return False
+	return _is_ident(_mul(_L, point))
+
+
+def crypto_core_ed25519_scalar_reduce(s):
+	if not isinstance(s, bytes) or len(s) != 64:
+		raise exc.TypeError('Integer s must be a bytes object of length 64')
+	return (int.from_bytes(s, 'little') % _L).to_bytes(32, 'little')
+
+
+def _scalars(p, q):
+	for value in (p, q):
+		if not isinstance(value, bytes) or len(value) != 32:
+			raise exc.TypeError('Each integer must be a bytes object of length 32')
+	return int.from_bytes(p, 'little'), int.from_bytes(q, 'little')
+
+
+def crypto_core_ed25519_scalar_add(p, q):
+	x, y = _scalars(p, q)
+	return ((x + y) % _L).to_bytes(32, 'little')
+
+
+def crypto_core_ed25519_scalar_mul(p, q):
+	x, y = _scalars(p, q)
+	return ((x * y) % _L).to_bytes(32, 'little')
+
+
+def _points(p, q):
+	for value in (p, q):
+		if not isinstance(value, bytes) or len(value) != 32:
+			raise exc.TypeError('Each point must be a bytes object of length 32')
+	first, second = _decode(p), _decode(q)
+	if first is None or second is None:
+		raise exc.RuntimeError('Unexpected library error')
+	return first, second
+
+
+def crypto_core_ed25519_add(p, q):
+	first, second = _points(p, q)
+	return _encode(_add(first, second))
+
+
+def crypto_core_ed25519_sub(p, q):
+	first, second = _points(p, q)
+	return _encode(_add(first, _neg(second)))
+
+
+def _scalar_arg(n):
+	if not isinstance(n, bytes) or len(n) != 32:
+		raise exc.TypeError('Input must be a 32 bytes long bytes sequence')
+	return int.from_bytes(n, 'little')
+
+
+def _finish(point, scalar):
+	if _is_ident(point) or scalar == 0:
+		raise exc.RuntimeError('Unexpected library error')
+	return _encode(point)
+
+
+def crypto_scalarmult_ed25519_base(n):
+	scalar = _scalar_arg(n)
+	scalar &= ~7
+	scalar &= (1 << 255) - 1
+	scalar |= 1 << 254
+	return _finish(_mul(scalar, _BASE), scalar)
+
+
+def crypto_scalarmult_ed25519_base_noclamp(n):
+	scalar = _scalar_arg(n) & ((1 << 255) - 1)
+	return _finish(_mul(scalar, _BASE), scalar)
+
+
+def crypto_scalarmult_ed25519_noclamp(n, p):
+	scalar = _scalar_arg(n) & ((1 << 255) - 1)
+	if not isinstance(p, bytes) or len(p) != 32:
+		raise exc.TypeError('Input must be a 32 bytes long bytes sequence')
+	point = _decode(p) if _is_canonical(p) else None
+	if point is None or _has_small_order(point) or not _is_ident(_mul(_L, point)):
+		raise exc.RuntimeError('Unexpected library error')
+	return _finish(_mul(scalar, point), scalar)
+
+
+def _self_test():
+	import hashlib
+	import random
+
+	from cryptography.hazmat.primitives import serialization
+	from cryptography.hazmat.primitives.asymmetric import ed25519
+
+	def sha512_int(*parts):
+		return crypto_core_ed25519_scalar_reduce(hashlib.sha512(b''.join(parts)).digest())
+
+	rng = random.Random(8032)
+	assert _encode(_BASE).hex() == '58' + '66' * 31
+	assert _is_ident(_mul(_L, _BASE)) and not _is_ident(_mul(_L - 1, _BASE))
+	assert not crypto_core_ed25519_is_valid_point(bytes([1]) + bytes(31))            # neutral element: small order
+	assert not crypto_core_ed25519_is_valid_point((_P + 1).to_bytes(32, 'little'))   # non canonical
+	assert not crypto_core_ed25519_is_valid_point(bytes([2]) + bytes(31))            # y = 2 is not on the curve
+	for _ in range(20):
+		seed = bytes(rng.randrange(256) for _ in range(32))
+		message = bytes(rng.randrange(256) for _ in range(rng.randrange(0, 200)))
+		reference = ed25519.Ed25519PrivateKey.from_private_bytes(seed)
+		reference_public = reference.public_key().public_bytes(serialization.Encoding.Raw, serialization.PublicFormat.Raw)
+		digest = hashlib.sha512(seed).digest()
+		public = crypto_scalarmult_ed25519_base(digest[:32])
+		assert public == reference_public, 'public key'
+		assert crypto_core_ed25519_is_valid_point(public)
+		clamped = bytearray(digest[:32])
+		clamped[0] &= 0xF8
+		clamped[31] &= 0x7F
+		clamped[31] |= 0x40
+		nonce = sha512_int(digest[32:], message)
+		big_r = crypto_scalarmult_ed25519_base_noclamp(nonce)
+		challenge = sha512_int(big_r, public, message)
+		big_s = crypto_core_ed25519_scalar_add(nonce, crypto_core_ed25519_scalar_mul(bytes(clamped), challenge))
+		assert big_r + big_s == reference.sign(message), 'signature'
+		check = crypto_core_ed25519_sub(crypto_scalarmult_ed25519_base_noclamp(big_s), crypto_scalarmult_ed25519_noclamp(challenge, public))
+		assert check == big_r, 'verification equation'
+		assert crypto_core_ed25519_add(check, crypto_scalarmult_ed25519_noclamp(challenge, public)) \
+			== crypto_scalarmult_ed25519_base_noclamp(big_s)
+		# a point of order 8L (valid point plus a point of order 8) is on the curve but not in the main subgroup
+		torsion = _decode(bytes.fromhex('26e8958fc2b227b045c3f489f2ef98f0d5dfac05d3c63339b13802886d53fc05'))
+		assert torsion is not None and _is_ident(_mul(8, torsion)) and not _is_ident(_mul(4, torsion))
+		mixed = _encode(_add(_decode(public), torsion))
+		assert not crypto_core_ed25519_is_valid_point(mixed)
+	print('nacl.bindings shim self-test ok')
+
+
+if __name__ == '__main__':
+	_self_test()
